@@ -1343,6 +1343,47 @@ def np_minmax(which):
 
     return f
 
+
+_RNG_PERM = z3.Function("rng_perm", z3.IntSort(), z3.IntSort(), z3.IntSort(), z3.IntSort(), z3.IntSort())
+
+
+def rng_state(ex, seed=None):
+    if seed is None or not (isinstance(seed, int) or (isinstance(seed, Sym) and seed.ty == "int")):
+        raise Unsupported("numpy.random.RandomState without an integer seed")
+    used("numpy.random.RandomState(seed).permutation(x): the k-th call returns x rearranged by a permutation that is a function "
+         "of (seed, k, len(x)) only; which permutation is not specified")
+    return Obj("RandomState", {"seed": seed, "calls": 0})
+
+
+def rng_permutation(ex, rng, x):
+    """a fresh array with the elements of the 1-D sequence x rearranged by rng_perm(seed, call number, n, .), an arbitrary
+    but fixed bijection of range(n)"""
+    if isinstance(x, Arr2V) or not isinstance(x, SeqV) or not x.is_concrete_len():
+        raise Unsupported("RandomState.permutation of this value")
+    items = [ops.to_abstract(e) for e in x.concrete_items()]
+    n = len(items)
+    k = rng.fields["calls"]
+    rng.fields["calls"] = k + 1
+    seed = term(rng.fields["seed"], "int")
+    idx = [_RNG_PERM(seed, z3.IntVal(k), z3.IntVal(n), z3.IntVal(i)) for i in range(n)]
+    for i in range(n):
+        ex.p.assume(z3.And(idx[i] >= 0, idx[i] < n))
+    if n > 1:
+        ex.p.assume(z3.Distinct(*idx))
+    out = []
+    for i in range(n):
+        if all(isinstance(e, WellV) for e in items):
+            r, c = term(items[-1].r, "int"), term(items[-1].c, "int")
+            for j in range(n - 2, -1, -1):
+                r = z3.If(idx[i] == j, term(items[j].r, "int"), r)
+                c = z3.If(idx[i] == j, term(items[j].c, "int"), c)
+            out.append(WellV(z3.simplify(r), z3.simplify(c)))
+        elif n == 1:
+            out.append(items[0])
+        else:
+            raise Unsupported("RandomState.permutation of elements other than well ids")
+    return SeqV.of("array", out)
+
 BUILTINS = {
     "len": b_len,
     "max": b_minmax("max"),
@@ -1389,6 +1430,7 @@ BUILTINS = {
     "numpy.zeros_like": np_zeros_like,
     "numpy.full": np_full,
     "numpy.linspace": np_linspace,
+    "numpy.random.RandomState": rng_state,
     "numpy.exp": np_explog("exp"),
     "numpy.log": np_explog("log"),
     "numpy.min": np_minmax("min"),
@@ -1469,6 +1511,10 @@ def method_special(ex, recv, name, args, kw):
     if isinstance(recv, FileV) and name == "write":
         io_log(ex).append(("write", recv, args[0]))
         return None
+    if isinstance(recv, Obj) and recv.cls == "RandomState":
+        if name == "permutation" and len(args) == 1 and not kw:
+            return rng_permutation(ex, recv, args[0])
+        raise Unsupported(f"RandomState.{name}")
     if isinstance(recv, Obj) and recv.cls == "Path":
         if name == "unlink":
             io_log(ex).append(("unlink", recv, kw.get("missing_ok", False)))
@@ -2015,6 +2061,10 @@ def obj_attr(ex, o: Obj, attr):
     if o.cls == "Path":
         if attr == "name":
             return Sym(PATHNAME(term(o.fields["str"])), "str")
+        from .engine import LibMethod
+
+        return LibMethod(o, attr)
+    if o.cls == "RandomState":
         from .engine import LibMethod
 
         return LibMethod(o, attr)
